@@ -333,6 +333,45 @@ def run(ctx: Ctx):
                      f"container {ci.name} is not a dataclass: type_class() construction and "
                      f"field defaults do not work", rule="C03-R8b")
 
+    # a decoded message has exactly the attributes that were on the wire: no scalar default is
+    # planted by the constructor that also runs for received messages
+    ctx.rule("C03-R8d", "typed constructors plant no scalar (non-list, non-None) attribute default "
+                        "that a decode of a message without that AVP would keep", floor=60)
+    for ci in msg_classes:
+        f = _post_init(ci)
+        if f is None:
+            continue
+        cons0 = f"{ci.name}.__post_init__:scalar-default"
+        ctx.inst(cons0, rule="C03-R8d")
+        for n in ast.walk(f.node):
+            if isinstance(n, ast.Call) and A.call_name(n) == "setattr" and len(n.args) == 3 \
+                    and A.dotted(n.args[0]) == "self" and isinstance(n.args[1], ast.Constant) \
+                    and isinstance(n.args[2], ast.Constant) and n.args[2].value is not None:
+                attr = n.args[1].value
+                ctx.fail(f"{ci.name}.__post_init__:scalar-default({attr})", f.loc(n),
+                         f"{ci.name}.__post_init__ sets `{attr} = {n.args[2].value!r}` before the received "
+                         f"AVPs are assigned, also when the instance is built from received bytes: a "
+                         f"message that does not carry that AVP (or whose sender set the attribute to "
+                         f"None to leave it out) decodes with {attr} == {n.args[2].value!r}, and encoding "
+                         f"it again emits an AVP that was not on the wire (encode-decode-encode differs)",
+                         rule="C03-R8d")
+    # AVPs a container does not declare are carried over
+    ctx.rule("C03-R8e", "assign_attr_from_defs keeps an AVP the object does not declare (additional "
+                        "AVP list) for every container class", floor=1)
+    cons0 = "assign_attr_from_defs:undeclared-avp-dropped"
+    lacking = sorted(ci.name for ci in grp_classes if "additional_avps" not in ci.annotations)
+    ctx.inst(cons0, rule="C03-R8e", sample={"containers_without_additional_avps": len(lacking),
+                                            "of": len(grp_classes)})
+    asg_ = model.func("message.commands._attributes", "assign_attr_from_defs")
+    creates = any(isinstance(n, ast.Call) and A.call_name(n) == "setattr" and len(n.args) == 3
+                  and isinstance(n.args[1], ast.Constant) and "additional_avps" in str(n.args[1].value)
+                  for n in ast.walk(asg_.node))
+    if lacking and not creates:
+        ctx.fail(cons0, asg_.loc(), f"{len(lacking)} of {len(grp_classes)} container classes (e.g. "
+                 f"{', '.join(lacking[:4])}) have no additional_avps field and assign_attr_from_defs has "
+                 f"no fall-back for them: a member AVP such a container does not declare is silently "
+                 f"dropped while decoding and is missing when the message is encoded again",
+                 rule="C03-R8e")
     # every field default of a container is None or a fresh list: anything else is encoded as
     # if the attribute had been set
     ctx.rule("C03-R8c", "container field defaults are None or field(default_factory=list)", floor=1300)
